@@ -48,3 +48,38 @@ Print Assumptions C07_no_legal_move_null.
    the root can return (static evaluation, mate scores `loss + fullmove`, capture search, repetition leaf), because
    the root takes a move only when `child_value > best_value` with best_value initialised to loss_score = -win_score.
    The bound is FALSE for full-move numbers >= 2^24 (known finding D17), so it needs a range hypothesis on the clock. *)
+
+(* ================================================================================================================
+   GLUE (Proofs/ChessInstance.v, Proofs/Preserve.v): [C03_family] discharged; the two theorems above for the tables
+   regenerated from the current /repo, without abstract hypotheses.
+     good_chess T n b := wf b /\ rights_wf b /\ ep_free b /\ is_valid T b /\ half b + n < 4096
+   (pinned in Properties/C09.v: C09_good_chess_meaning, C09_ep_free_meaning, C09_chess_C03_family).
+   RANGE OF HALF-MOVE CLOCKS COVERED: a go of at most D iterations on a board with  half b + D + 130 < 4096.
+   ================================================================================================================ *)
+Require Ink.Gen.Tables.
+Require Import Ink.Proofs.MakeUnmake Ink.Proofs.Preserve Ink.Proofs.ChessInstance.
+
+Theorem C07_good_chess_meaning : forall (T : Tables.t) (n : nat) (b : board),
+  good_chess T n b <->
+  wf b = true /\ rights_wf b = true /\ ep_free b = true /\ is_valid T b = true /\ half b + N.of_nat n < 4096.
+Proof. exact (fun T n b => iff_refl _). Qed.
+Print Assumptions C07_good_chess_meaning.
+
+Theorem C07_bestmove_legal_chess : forall orc g st D,
+  (length (fst (go_full Ink.Gen.Tables.tables orc g st)) <= D)%nat ->
+  good_chess Ink.Gen.Tables.tables (D + 130) (s_board st) ->
+  forall u, announced (fst (go_full Ink.Gen.Tables.tables orc g st)) = Some u ->
+  exists m, u = uci_of_move m /\ In m (gen_pseudo Ink.Gen.Tables.tables (s_board st)) /\
+            is_move_legal Ink.Gen.Tables.tables (s_board st) m = true /\
+            (g_searchmoves g = [] \/ existsb (umove_eqb (uci_of_move m)) (g_searchmoves g) = true).
+Proof. exact ChessInstance.C07_bestmove_legal_chess. Qed.
+Print Assumptions C07_bestmove_legal_chess.
+
+Theorem C07_no_legal_move_null_chess : forall orc g st D,
+  (length (fst (go_full Ink.Gen.Tables.tables orc g st)) <= D)%nat ->
+  good_chess Ink.Gen.Tables.tables (D + 130) (s_board st) ->
+  (forall m, In m (root_moves Ink.Gen.Tables.tables g (s_board st)) ->
+             is_move_legal Ink.Gen.Tables.tables (s_board st) m = false) ->
+  announced (fst (go_full Ink.Gen.Tables.tables orc g st)) = None.
+Proof. exact ChessInstance.C07_no_legal_move_null_chess. Qed.
+Print Assumptions C07_no_legal_move_null_chess.
